@@ -34,9 +34,15 @@ func checkC11(c *Ctx) {
 		rec, closes := false, false
 		for _, i := range read.Blocks[0].Instrs {
 			if d, ok := i.(*ssa.Defer); ok {
-				if mc, ok := d.Call.Value.(*ssa.MakeClosure); ok && hasRecoverIn(mc.Fn.(*ssa.Function)) {
+				var dfn *ssa.Function
+				if mc, ok := d.Call.Value.(*ssa.MakeClosure); ok {
+					dfn = mc.Fn.(*ssa.Function)
+				} else if cal := staticCallee(d); cal != nil && inModule(cal) && cal.Blocks != nil {
+					dfn = cal
+				}
+				if dfn != nil && hasRecoverIn(dfn) {
 					rec = true
-					allInstrs(mc.Fn.(*ssa.Function), func(j ssa.Instruction) {
+					allInstrs(dfn, func(j ssa.Instruction) {
 						if call, ok := j.(*ssa.Call); ok && callKey(call) == "(*Client).closeWithError" {
 							closes = true
 						}
